@@ -748,7 +748,7 @@ class BaseProject(object, metaclass=ABCMeta):
             self.cost_list.insert(step_time, 0.0)
 
         self.time = self.time + len(new_absence_time_list)
-        self.absence_time_list.extend(new_absence_time_list)
+        self.absence_time_list = self.absence_time_list + new_absence_time_list
 
     def set_last_datetime(
         self, last_datetime, unit_timedelta=None, set_init_datetime=True
